@@ -74,6 +74,10 @@ def gen_cases(rng, n):
                 continue
             if c["engine"] == "numbagg":
                 c["engine"] = "numpy"
+            if plan in ("map-reduce", "auto") and rng.random() < 0.4:
+                c["by_dask"] = True      # labels held in a dask array: the request is all that is known when the graph is built
+        if rng.random() < 0.4:
+            c["expected_as"] = rng.choice(["pd.Index", "list"])      # the same request in another container
         out.append(c)
     return out
 
